@@ -16,21 +16,21 @@ Qed.
 Lemma C01_group_isolation_thm tr :
   admits base0 tr = true -> at_every_position tr (fun b te => ~ In 101 (mon_C01 b te)).
 Proof.
-  intros A pre te post E. destruct (admitted_everywhere tr A pre te post E) as [_ G].
+  intros A pre te post E. destruct (admitted_everywhere tr A pre te post E) as [_ G]. apply guards_split in G. destruct G as [G _].
   apply C01_group_isolation. exact G.
 Qed.
 
 Lemma C01_create_and_revision_thm tr :
   admits base0 tr = true -> at_every_position tr (fun b te => ~ In 102 (mon_C01 b te) /\ ~ In 104 (mon_C01 b te)).
 Proof.
-  intros A pre te post E. destruct (admitted_everywhere tr A pre te post E) as [_ G].
+  intros A pre te post E. destruct (admitted_everywhere tr A pre te post E) as [_ G]. apply guards_split in G. destruct G as [G _].
   apply C01_store_contract. exact G.
 Qed.
 
 Lemma C01_identity_and_takeover_thm tr :
   admits base0 tr = true -> at_every_position tr (fun b te => ~ In 103 (mon_C01 b te) /\ ~ In 106 (mon_C01 b te)).
 Proof.
-  intros A pre te post E. destruct (admitted_everywhere tr A pre te post E) as [I G].
+  intros A pre te post E. destruct (admitted_everywhere tr A pre te post E) as [I G]. apply guards_split in G. destruct G as [G _].
   destruct te as [t e].
   destruct e; try (destruct (C01_identity_takeover_apply _ _ _ _ _ _ I G) as (X & Y & _); split; assumption);
     cbn [mon_C01 snd]; split; intros Hin; try apply mwhen_in in Hin; cbn in Hin; intuition congruence.
@@ -42,7 +42,7 @@ Lemma C10_takeover_only_lower_thm tr :
     In 1001 (mon_C10s b te) ->
     exists op okind rev val p, snd te = EApply op okind rev val /\ aget (b_pend b) op = Some p /\ p_inner p <> sTakeover).
 Proof.
-  intros A pre te post E. destruct (admitted_everywhere tr A pre te post E) as [I G].
+  intros A pre te post E. destruct (admitted_everywhere tr A pre te post E) as [I G]. apply guards_split in G. destruct G as [G _].
   destruct te as [t e]. cbv beta.
   destruct e;
     try (intros Hin; destruct (C01_identity_takeover_apply _ _ _ _ _ _ I G) as (_ & _ & Hz);
@@ -53,7 +53,7 @@ Qed.
 Lemma C13_claim_needs_own_write_thm tr :
   admits base0 tr = true -> at_every_position tr (fun b te => ~ In 1302 (mon_C13 b te)).
 Proof.
-  intros A pre te post E. destruct (admitted_everywhere tr A pre te post E) as [_ G].
+  intros A pre te post E. destruct (admitted_everywhere tr A pre te post E) as [_ G]. apply guards_split in G. destruct G as [G _].
   apply claim_needs_own_write. exact G.
 Qed.
 
@@ -76,7 +76,7 @@ Ltac notin :=
 Lemma C09_stopped_never_claims_thm tr :
   admits base0 tr = true -> at_every_position tr (fun b te => forall m, ~ In 901 (mon_C09 b m te)).
 Proof.
-  intros A pre te post E. destruct (admitted_everywhere tr A pre te post E) as [I G]. intros m.
+  intros A pre te post E. destruct (admitted_everywhere tr A pre te post E) as [I G]. apply guards_split in G. destruct G as [G _]. intros m.
   destruct te as [t e]. destruct e; try (apply C09_final_flag; assumption); cbn [mon_C09 snd fst]; notin.
 Qed.
 
@@ -90,7 +90,7 @@ Lemma C08_alternation_thm tr :
   admits base0 tr = true -> at_every_position tr (fun b te => forall m, ~ In 801 (mon_C08 b m te) /\ ~ In 802 (mon_C08 b m te)).
 Proof.
   intros A pre te post E. unfold brun.
-  destruct (admitted_prefix_cb tr base0 CB0 A pre te post E) as [C G]. intros m.
+  destruct (admitted_prefix_cb tr base0 CB0 A pre te post E) as [C G]. apply guards_split in G. destruct G as [G _]. intros m.
   apply C08_alternation_local; assumption.
 Qed.
 
@@ -99,7 +99,7 @@ Lemma refresh_legit_thm tr :
   admits base0 tr = true -> at_every_position tr (fun b te => ~ In 105 (mon_C01 b te) /\ ~ In 503 (mon_C05 b te)).
 Proof.
   intros A pre te post E. unfold brun.
-  destruct (admitted_prefix2 tr base0 Inv0 Inv2_0 A pre te post E) as (I & I2 & G).
+  destruct (admitted_prefix2 tr base0 Inv0 Inv2_0 A pre te post E) as (I & I2 & G). apply guards_split in G. destruct G as [G _].
   destruct te as [t e]. cbv beta.
   destruct e; try (apply refresh_legit_apply; assumption); cbn [mon_C01 mon_C05 snd]; split; notin.
 Qed.
